@@ -168,19 +168,6 @@ struct RbHarness {
 	}
 };
 
-// merge several BFS runs into one instance result
-static void merge(InstResult &a, const InstResult &b) {
-	a.states += b.states; a.transitions += b.transitions;
-	a.max_depth = std::max(a.max_depth, b.max_depth);
-	a.complete = a.complete && b.complete;
-	a.fixpoint = a.fixpoint && b.fixpoint;
-	if(!b.cap.empty()) a.cap = b.cap;
-	for(auto &o : b.outcomes) a.outcomes.insert(o);
-	for(auto &s : b.samples) if(a.samples.size() < 4) a.samples.push_back(b.name + ": " + s);
-	for(auto &v : b.violations) { bool d = false; for(auto &x : a.violations) if(x.sig == v.sig) d = true; if(!d) a.violations.push_back(v); }
-	a.wall += b.wall;
-}
-
 static std::string keyname(const std::vector<int> &k) { std::string s; for(int x : k) s += char('0' + x); return s; }
 
 // all key assignments ids -> {0..K-1}
